@@ -97,6 +97,8 @@ def run_case(case, R):
         gm = (pa.OraclePermutationAlignment() if case['rs'][-1] % 2 else pa.OraclePermutationAlignment('cos')).calculate_mapping(est.reshape(K, F * T), truth.reshape(K, F * T))
         est = est[gm]
     except Exception as e:
+        if not instr.is_library_exception(e):
+            raise
         R.fail('C17.map-accuracy', f'pipeline/raised/{case["model"]}', f'pipeline raised {type(e).__name__}: {str(e)[:120]}', **info)
         return
     acc = float((est.argmax(0) == owner[None, :]).mean())
@@ -106,6 +108,8 @@ def run_case(case, R):
     try:
         psd = get_power_spectral_density_matrix(Y, masks)              # (F, K, D, D)
     except Exception as e:
+        if not instr.is_library_exception(e):
+            raise
         R.fail('C17.sir', 'pipeline/raised/psd', f'{type(e).__name__}: {str(e)[:100]}', **info)
         return
     worst = {}
@@ -121,6 +125,8 @@ def run_case(case, R):
             ncontrib = np.stack([apply_beamforming_vector(W[kt], noise).reshape(-1) for kt in range(K)])
             res = output_sxr(contrib, ncontrib, average_sources=False)
         except Exception as e:
+            if not instr.is_library_exception(e):
+                raise
             R.fail('C17.sir', f'pipeline/raised/{name}', f'beamformer {name} raised {type(e).__name__}: {str(e)[:100]}', **info)
             continue
         sir = np.asarray(res.sir, dtype=float)
